@@ -904,8 +904,16 @@ func processStructProvider(fset *token.FileSet, info *types.Info, call *ast.Call
 	for i := 0; i < len(provider.Args); i++ {
 		for j := 0; j < i; j++ {
 			if types.Identical(provider.Args[i].Type, provider.Args[j].Type) {
-				f := st.Field(j)
-				return nil, notePosition(fset.Position(f.Pos()), fmt.Errorf("provider struct has multiple fields of type %s", types.TypeString(provider.Args[j].Type, nil)))
+				// Report at the earlier of the two fields; Args does not
+				// follow the struct's field order when fields are skipped
+				// or listed by name.
+				pos := call.Pos()
+				for k := 0; k < st.NumFields(); k++ {
+					if st.Field(k).Name() == provider.Args[j].FieldName {
+						pos = st.Field(k).Pos()
+					}
+				}
+				return nil, notePosition(fset.Position(pos), fmt.Errorf("provider struct has multiple fields of type %s", types.TypeString(provider.Args[j].Type, nil)))
 			}
 		}
 	}
